@@ -1,4 +1,811 @@
-(* C09 — proofs *)
-From Coq Require Import List ZArith QArith Bool Lia.
+(* C09 — proofs, part 1: the invariant, frame lemmas, the reset walk, the setters, the memoising queries *)
+From Coq Require Import List ZArith QArith Bool Lia Arith.
 Import ListNotations.
 Require Import QV.common.Util QV.C09.Model.
+
+(* ---- heap lemmas -------------------------------------------------------------------------------------------------- *)
+Lemma upd_list_length {A} (l : list A) i f : length (upd_list l i f) = length l.
+Proof. revert i; induction l; intros [|i]; cbn; auto. Qed.
+
+Lemma nth_upd_list_same {A} (l : list A) i f a :
+  nth_error l i = Some a -> nth_error (upd_list l i f) i = Some (f a).
+Proof. revert i; induction l; intros [|i] H; cbn in *; try discriminate; auto. congruence. Qed.
+
+Lemma nth_upd_list_none {A} (l : list A) i f j :
+  nth_error l j = None -> nth_error (upd_list l i f) j = None.
+Proof.
+  intros H. apply nth_error_None. rewrite upd_list_length. now apply nth_error_None.
+Qed.
+
+Lemma nth_upd_list_other {A} (l : list A) i j f :
+  i <> j -> nth_error (upd_list l i f) j = nth_error l j.
+Proof.
+  revert i j; induction l; intros [|i] [|j] H; cbn; auto; try congruence.
+Qed.
+
+Lemma get_upd_same h x f n : get h x = Some n -> get (upd h x f) x = Some (f n).
+Proof. apply nth_upd_list_same. Qed.
+Lemma get_upd_other h x y f : x <> y -> get (upd h x f) y = get h y.
+Proof. apply nth_upd_list_other. Qed.
+Lemma get_upd h x y f :
+  get (upd h x f) y = if Nat.eqb x y then option_map f (get h y) else get h y.
+Proof.
+  destruct (Nat.eqb_spec x y) as [->|N].
+  - destruct (get h y) eqn:E; cbn.
+    + now apply get_upd_same.
+    + now apply nth_upd_list_none.
+  - now apply get_upd_other.
+Qed.
+
+(* ---- reachability, recomputed duration ----------------------------------------------------------------------------- *)
+Inductive reach (h : heap) (a : id) : id -> Prop :=
+| reach_refl : reach h a a
+| reach_step p np c : reach h a p -> get h p = Some np -> In c (children np) -> reach h a c.
+
+Lemma reach_trans h a b c : reach h a b -> reach h b c -> reach h a c.
+Proof. intros H1 H2; induction H2; eauto using reach. Qed.
+
+Lemma reach_child h p np c : get h p = Some np -> In c (children np) -> reach h p c.
+Proof. intros; eapply reach_step; eauto using reach. Qed.
+
+Definition leaf_dur (n : node) : Q := match wform n with Some w => Qred (wf_dur w) | None => 0%Q end.
+Definition rep_of (n : node) : Q := inject_Z (rep_count (rdf n)).
+
+Inductive tbody (h : heap) : id -> Q -> Prop :=
+| TB_leaf x n : get h x = Some n -> children n = [] -> tbody h x (leaf_dur n)
+| TB_inner x n s : get h x = Some n -> children n <> [] -> tsum h (children n) s -> tbody h x s
+with tsum (h : heap) : list id -> Q -> Prop :=
+| TS_nil : tsum h [] 0%Q
+| TS_cons c cs b nc s : tbody h c b -> get h c = Some nc -> tsum h cs s -> tsum h (c :: cs) (b * rep_of nc + s)%Q.
+
+Scheme tbody_mind := Induction for tbody Sort Prop
+  with tsum_mind := Induction for tsum Sort Prop.
+Combined Scheme tbody_tsum_ind from tbody_mind, tsum_mind.
+
+Lemma tbody_tsum_fun h :
+  (forall x b, tbody h x b -> forall b', tbody h x b' -> b = b') /\
+  (forall l s, tsum h l s -> forall s', tsum h l s' -> s = s').
+Proof.
+  apply tbody_tsum_ind.
+  - intros x n G C b' H'. inversion H'; subst.
+    + rewrite G in H; inversion H; subst; auto.
+    + rewrite G in H; inversion H; subst; congruence.
+  - intros x n s G C T IH b' H'. inversion H'; subst.
+    + rewrite G in H; inversion H; subst; congruence.
+    + rewrite G in H; inversion H; subst. now apply IH.
+  - intros s' H'. inversion H'; auto.
+  - intros c cs b nc s T IH G T2 IH2 s' H'. inversion H'; subst.
+    match goal with |- _ = (?b0 * rep_of ?m + ?s0)%Q =>
+      assert (m = nc) by congruence; subst m;
+      assert (b = b0) by (apply IH; assumption); assert (s = s0) by (apply IH2; assumption); subst; reflexivity end.
+Qed.
+Lemma tbody_fun h x b b' : tbody h x b -> tbody h x b' -> b = b'.
+Proof. intros H; now apply (proj1 (tbody_tsum_fun h)). Qed.
+
+(* frame: the recomputed duration of y only reads nodes reachable from y *)
+Lemma tbody_tsum_frame h h' :
+  (forall x b, tbody h x b -> (forall z, reach h x z -> get h' z = get h z) -> tbody h' x b) /\
+  (forall l s, tsum h l s -> (forall c z, In c l -> reach h c z -> get h' z = get h z) -> tsum h' l s).
+Proof.
+  apply tbody_tsum_ind.
+  - intros x n G C F. apply (TB_leaf h' x n); auto. rewrite F; auto; constructor.
+  - intros x n s G C T IH F. apply (TB_inner h' x n); auto.
+    + rewrite F; auto; constructor.
+    + apply IH. intros c z I R. apply F. eapply reach_trans; [eapply reach_child; eauto|auto].
+  - constructor.
+  - intros c cs b nc s T IH G T2 IH2 F. constructor.
+    + apply IH. intros z R. eapply F; [left; reflexivity|auto].
+    + rewrite (F c c); auto; [now left|constructor].
+    + apply IH2. intros c' z I R. eapply F; [right; eauto|auto].
+Qed.
+Lemma tbody_frame h h' x b :
+  tbody h x b -> (forall z, reach h x z -> get h' z = get h z) -> tbody h' x b.
+Proof. apply (proj1 (tbody_tsum_frame h h')). Qed.
+
+(* nodes agree on everything the recomputation and reachability read *)
+Definition shape (n : node) := (children n, rdf n, wform n).
+Definition same_shape (h h' : heap) := forall y, option_map shape (get h y) = option_map shape (get h' y).
+
+Lemma same_shape_sym h h' : same_shape h h' -> same_shape h' h.
+Proof. intros H y; symmetry; apply H. Qed.
+
+Lemma same_shape_get h h' y n : same_shape h h' -> get h y = Some n ->
+  exists n', get h' y = Some n' /\ children n' = children n /\ rdf n' = rdf n /\ wform n' = wform n.
+Proof.
+  intros S G. specialize (S y). rewrite G in S. destruct (get h' y) as [n'|]; cbn in S; [|discriminate].
+  unfold shape in S. inversion S. eauto.
+Qed.
+
+Lemma tbody_tsum_shape h h' : same_shape h h' ->
+  (forall x b, tbody h x b -> tbody h' x b) /\ (forall l s, tsum h l s -> tsum h' l s).
+Proof.
+  intros S. apply tbody_tsum_ind.
+  - intros x n G C. destruct (same_shape_get _ _ _ _ S G) as (n' & G' & C' & R' & W').
+    replace (leaf_dur n) with (leaf_dur n') by (unfold leaf_dur; now rewrite W').
+    apply (TB_leaf h' x n'); congruence.
+  - intros x n s G C T IH. destruct (same_shape_get _ _ _ _ S G) as (n' & G' & C' & R' & W').
+    apply (TB_inner h' x n'); auto; congruence.
+  - constructor.
+  - intros c cs b nc s T IH G T2 IH2. destruct (same_shape_get _ _ _ _ S G) as (n' & G' & C' & R' & W').
+    replace (rep_of nc) with (rep_of n') by (unfold rep_of; now rewrite R').
+    constructor; auto.
+Qed.
+Lemma tbody_shape h h' x b : same_shape h h' -> tbody h x b -> tbody h' x b.
+Proof. intros S; apply (proj1 (tbody_tsum_shape h h' S)). Qed.
+
+Lemma reach_shape h h' a b : same_shape h h' -> reach h a b -> reach h' a b.
+Proof.
+  intros S R; induction R; [constructor|].
+  destruct (same_shape_get _ _ _ _ S H) as (n' & G' & C' & _).
+  eapply reach_step; eauto. now rewrite C'.
+Qed.
+
+(* ---- the invariant ------------------------------------------------------------------------------------------------- *)
+(* the cached body duration of y, if any, equals the recomputed one *)
+Definition cvalid (h : heap) (y : id) : Prop :=
+  forall n c, get h y = Some n -> cache n = Some c -> exists b, tbody h y b /\ (c == b)%Q.
+
+Record InvExc (h : heap) (r : id) (P : id -> Prop) : Prop := {
+  inv_root : exists nr, get h r = Some nr /\ parent nr = None;
+  (* I2 + I3: every child listed at position i of a reachable node records that position and that parent *)
+  inv_links : forall p np i c, reach h r p -> get h p = Some np -> nth_error (children np) i = Some c ->
+              exists nc, get h c = Some nc /\ parent nc = Some p /\ pidx nc = Some (Z.of_nat i);
+  (* the reachable part is a well-founded tree *)
+  inv_rank : exists rk : id -> nat, forall p np c, reach h r p -> get h p = Some np -> In c (children np) -> (rk c < rk p)%nat;
+  (* I1, for every reachable node outside the exception set *)
+  inv_cache : forall x, reach h r x -> ~ P x -> cvalid h x
+}.
+Definition Inv (h : heap) (r : id) : Prop := InvExc h r (fun _ => False).
+
+Lemma InvExc_weaken h r (P Q : id -> Prop) : (forall x, reach h r x -> Q x -> P x) -> InvExc h r Q -> InvExc h r P.
+Proof. intros W [A B C D]; split; auto. Qed.
+
+Section Facts.
+  Variables (h : heap) (r : id) (P : id -> Prop).
+  Hypothesis I : InvExc h r P.
+
+  Lemma live_get x : reach h r x -> exists n, get h x = Some n.
+  Proof.
+    intros R; inversion R; subst.
+    - destruct (inv_root _ _ _ I) as (nr & G & _); eauto.
+    - apply In_nth_error in H1 as (i & Hi).
+      destruct (inv_links _ _ _ I _ _ _ _ H H0 Hi) as (nc & G & _); eauto.
+  Qed.
+
+  Lemma lister_unique x p np : reach h r p -> get h p = Some np -> In x (children np) ->
+    exists nx, get h x = Some nx /\ parent nx = Some p.
+  Proof.
+    intros R G HIn. apply In_nth_error in HIn as (i & Hi).
+    destruct (inv_links _ _ _ I _ _ _ _ R G Hi) as (nc & G' & Pp & _); eauto.
+  Qed.
+
+  Lemma rank_reach : exists rk : id -> nat, forall a b, reach h r a -> reach h a b -> a <> b -> (rk b < rk a)%nat.
+  Proof.
+    destruct (inv_rank _ _ _ I) as (rk & Hrk). exists rk.
+    intros a b Ra Rab. induction Rab; intros N; [congruence|].
+    assert ((rk c < rk p)%nat) by (eapply Hrk; eauto; eapply reach_trans; eauto).
+    destruct (Nat.eq_dec a p) as [->|N']; [auto|]. specialize (IHRab N'). lia.
+  Qed.
+
+  Lemma acyclic a b : reach h r a -> reach h a b -> reach h b a -> a = b.
+  Proof.
+    intros Ra Rab Rba. destruct rank_reach as (rk & Hrk).
+    destruct (Nat.eq_dec a b); auto.
+    assert ((rk b < rk a)%nat) by (apply Hrk; auto).
+    assert ((rk a < rk b)%nat) by (apply Hrk; auto; eapply reach_trans; eauto).
+    lia.
+  Qed.
+
+  (* the root is nobody's child *)
+  Lemma root_top y : reach h r y -> reach h y r -> y = r.
+  Proof. intros R1 R2. symmetry. eapply acyclic; eauto using reach. Qed.
+
+  (* going up: whoever reaches x either is x or reaches x's recorded parent *)
+  Lemma reach_up y x nx p : reach h r y -> reach h y x -> y <> x -> get h x = Some nx -> parent nx = Some p ->
+    reach h y p.
+  Proof.
+    intros Ry R N G Pp. inversion R; subst; [congruence|].
+    assert (Rp : reach h r p0) by (eapply reach_trans; eauto).
+    destruct (lister_unique _ _ _ Rp H0 H1) as (nx' & G' & Pp'). congruence.
+  Qed.
+
+  (* a live non-root node has a live recorded parent that lists it *)
+  Lemma live_parent x nx : reach h r x -> get h x = Some nx ->
+    (x = r /\ parent nx = None) \/
+    (exists p np, parent nx = Some p /\ reach h r p /\ get h p = Some np /\ In x (children np)).
+  Proof.
+    intros R G. inversion R; subst.
+    - left. destruct (inv_root _ _ _ I) as (nr & G' & Pn). split; congruence.
+    - right. destruct (lister_unique _ _ _ H H0 H1) as (nx' & G' & Pp).
+      exists p, np. repeat split; auto; congruence.
+  Qed.
+
+  (* every live node has a recomputed body duration *)
+  Lemma live_tbody x : reach h r x -> exists b, tbody h x b.
+  Proof.
+    destruct (inv_rank _ _ _ I) as (rk & Hrk).
+    remember (rk x) as k eqn:Ek. revert x Ek.
+    induction k as [k IH] using lt_wf_ind. intros x Ek R.
+    destruct (live_get x R) as (n & G).
+    destruct (children n) as [|c0 cs0] eqn:C.
+    - exists (leaf_dur n). apply (TB_leaf h x n); auto.
+    - assert (S : exists s, tsum h (children n) s).
+      { assert (Hall : forall c, In c (children n) -> exists b nc, tbody h c b /\ get h c = Some nc).
+        { intros c Hc. assert (Rc : reach h r c) by (eapply reach_step; eauto).
+          destruct (IH (rk c)) with (x := c) as (b & Tb); auto.
+          - subst k. eapply Hrk; eauto.
+          - destruct (live_get c Rc) as (nc & Gc). eauto. }
+        clear C. induction (children n) as [|c cs IHl].
+        - eexists; constructor.
+        - destruct IHl as (s & Ts); [intros; apply Hall; now right|].
+          destruct (Hall c (or_introl eq_refl)) as (b & nc & Tb & Gc).
+          eexists; econstructor; eauto. }
+      destruct S as (s & Ts). exists s. apply (TB_inner h x n); auto. congruence.
+  Qed.
+End Facts.
+
+(* ---- modifications that touch caches only ----------------------------------------------------------------------------- *)
+Definition cache_only (h h' : heap) : Prop :=
+  forall y, match get h y, get h' y with
+            | Some n, Some n' => n' = set_cache (cache n') n
+            | None, None => True
+            | _, _ => False
+            end.
+
+Lemma cache_only_refl h : cache_only h h.
+Proof. intros y. destruct (get h y) as [[]|]; cbn; auto. Qed.
+
+Lemma cache_only_trans h1 h2 h3 : cache_only h1 h2 -> cache_only h2 h3 -> cache_only h1 h3.
+Proof.
+  intros A B y. specialize (A y); specialize (B y).
+  destruct (get h1 y) as [n1|], (get h2 y) as [n2|], (get h3 y) as [n3|]; auto; try contradiction.
+  rewrite B, A. destruct n1; reflexivity.
+Qed.
+
+Lemma cache_only_upd h x c : cache_only h (upd h x (set_cache c)).
+Proof.
+  intros y. rewrite get_upd. destruct (Nat.eqb x y); destruct (get h y) as [[]|]; cbn; auto.
+Qed.
+
+Lemma cache_only_shape h h' : cache_only h h' -> same_shape h h'.
+Proof.
+  intros C y. specialize (C y). destruct (get h y) as [n|], (get h' y) as [n'|]; try contradiction; auto.
+  rewrite C. destruct n; reflexivity.
+Qed.
+
+Lemma cache_only_get h h' y n : cache_only h h' -> get h y = Some n ->
+  exists n', get h' y = Some n' /\ n' = set_cache (cache n') n.
+Proof. intros C G. specialize (C y). rewrite G in C. destruct (get h' y); [eauto|contradiction]. Qed.
+
+Lemma cache_only_get' h h' y n' : cache_only h h' -> get h' y = Some n' ->
+  exists n, get h y = Some n /\ n' = set_cache (cache n') n.
+Proof. intros C G. specialize (C y). rewrite G in C. destruct (get h y); [eauto|contradiction]. Qed.
+
+(* everything of the invariant except I1 is insensitive to cache-only changes *)
+Lemma InvExc_cache_only h h' r P P' :
+  cache_only h h' -> InvExc h r P -> (forall x, reach h r x -> ~ P' x -> cvalid h' x) -> InvExc h' r P'.
+Proof.
+  intros C [A B R D] V.
+  pose proof (cache_only_shape _ _ C) as S. pose proof (same_shape_sym _ _ S) as S'.
+  split.
+  - destruct A as (nr & G & Pn). destruct (cache_only_get _ _ _ _ C G) as (n' & G' & E).
+    exists n'; split; auto. rewrite E. destruct nr; cbn in *; auto.
+  - intros p np i c Rp G Hi.
+    destruct (cache_only_get' _ _ _ _ C G) as (n & Gn & E).
+    assert (Hi' : nth_error (children n) i = Some c) by (rewrite E in Hi; destruct n; exact Hi).
+    destruct (B p n i c (reach_shape _ _ _ _ S' Rp) Gn Hi') as (nc & Gc & Pc & Ic).
+    destruct (cache_only_get _ _ _ _ C Gc) as (nc' & Gc' & Ec).
+    exists nc'; split; auto. rewrite Ec. destruct nc; cbn in *; auto.
+  - destruct R as (rk & Hrk). exists rk. intros p np c Rp G HIn.
+    destruct (cache_only_get' _ _ _ _ C G) as (n & Gn & E).
+    eapply Hrk; eauto using reach_shape. rewrite E in HIn. destruct n; exact HIn.
+  - intros x Rx NP. apply V; auto. eapply reach_shape; eauto.
+Qed.
+
+Lemma cvalid_cache_only_same h h' y :
+  cache_only h h' -> cvalid h y ->
+  (forall n n', get h y = Some n -> get h' y = Some n' -> cache n' = cache n \/ cache n' = None) -> cvalid h' y.
+Proof.
+  intros C V Same n' c G' Cc.
+  destruct (cache_only_get' _ _ _ _ C G') as (n & G & E).
+  destruct (Same n n' G G') as [Eq|Eq]; [|congruence].
+  destruct (V n c G) as (b & Tb & Qb); [congruence|].
+  exists b; split; auto. eapply tbody_shape; eauto using cache_only_shape.
+Qed.
+
+(* ---- the reset walk (Loop._invalidate_duration()) ------------------------------------------------------------------------ *)
+Definition ok_result {A} (r : result A) : Prop := match r with R _ => True | E e => e <> ExFuel /\ e <> ExDangling end.
+
+(* clears caches only *)
+Lemma invalidate_none_cache_only fuel : forall x h h' res,
+  invalidate fuel x None h = (h', res) ->
+  cache_only h h' /\ (forall y n n', get h y = Some n -> get h' y = Some n' -> cache n' = cache n \/ cache n' = None).
+Proof.
+  induction fuel as [|f IH]; intros x h h' res H; cbn in H.
+  - inversion H; subst. split; [apply cache_only_refl|]. intros; left; congruence.
+  - unfold bind, getn in H. destruct (get h x) as [n|] eqn:G.
+    2:{ inversion H; subst. split; [apply cache_only_refl|]. intros; left; congruence. }
+    set (h1 := match cache n with Some _ => upd h x (set_cache None) | None => h end).
+    assert (H1 : cache_only h h1 /\ (forall y m m', get h y = Some m -> get h1 y = Some m' -> cache m' = cache m \/ cache m' = None)).
+    { unfold h1. destruct (cache n).
+      - split; [apply cache_only_upd|]. intros y m m' Gm Gm'. rewrite get_upd in Gm'.
+        destruct (Nat.eqb x y); [|left; congruence]. rewrite Gm in Gm'. cbn in Gm'. inversion Gm'. right; destruct m; reflexivity.
+      - split; [apply cache_only_refl|]. intros; left; congruence. }
+    assert (H' : (match parent n with
+                  | None => ret tt
+                  | Some p => fun h0 => match getn p h0 with
+                                        | (h0', R np) => (if truthy np then invalidate f p None else ret tt) h0'
+                                        | (h0', E e) => (h0', E e) end
+                  end) h1 = (h', res)).
+    { unfold h1. destruct (cache n); cbn in H; unfold modn, ret, bind in *; cbn in *; exact H. }
+    clear H. destruct H1 as (C1 & S1).
+    destruct (parent n) as [p|].
+    + unfold getn in H'. destruct (get h1 p) as [np|].
+      * destruct (truthy np).
+        -- apply IH in H' as (C2 & S2). split; [eapply cache_only_trans; eauto|].
+           intros y m m' Gm Gm'. destruct (cache_only_get _ _ _ _ C1 Gm) as (m1 & Gm1 & _).
+           destruct (S1 y m m1 Gm Gm1) as [E1|E1], (S2 y m1 m' Gm1 Gm') as [E2|E2]; auto; left + right; congruence.
+        -- inversion H'; subst. auto.
+      * inversion H'; subst. auto.
+    + inversion H'; subst. auto.
+Qed.
+
+(* after the walk from x every ancestor-or-self of x has an empty cache *)
+Lemma invalidate_none_spec fuel : forall x h h' r,
+  invalidate fuel x None h = (h', R tt) ->
+  reach h r x -> InvExc h r (fun y => reach h y x) -> Inv h' r.
+Proof.
+  induction fuel as [|f IH]; intros x h h' r H Rx I; cbn in H; [discriminate|].
+  pose proof (invalidate_none_cache_only (S f) x h h' (R tt)) as CO. cbn in CO. specialize (CO H).
+  destruct CO as (CO & SAME).
+  unfold bind, getn in H. destruct (get h x) as [n|] eqn:G; [|discriminate].
+  set (h1 := match cache n with Some _ => upd h x (set_cache None) | None => h end).
+  assert (C1 : cache_only h h1) by (unfold h1; destruct (cache n); [apply cache_only_upd|apply cache_only_refl]).
+  assert (G1 : exists n1, get h1 x = Some n1 /\ cache n1 = None).
+  { unfold h1. destruct (cache n) eqn:Cn.
+    - erewrite get_upd_same by eauto. eexists; split; eauto; destruct n; reflexivity.
+    - eauto. }
+  assert (SAME1 : forall y m m', get h y = Some m -> get h1 y = Some m' -> cache m' = cache m \/ cache m' = None).
+  { unfold h1. destruct (cache n).
+    - intros y m m' Gm Gm'. rewrite get_upd in Gm'.
+      destruct (Nat.eqb x y); [|left; congruence]. rewrite Gm in Gm'. cbn in Gm'. inversion Gm'. right; destruct m; reflexivity.
+    - intros; left; congruence. }
+  assert (H' : (match parent n with
+                | None => ret tt
+                | Some p => fun h0 => match getn p h0 with
+                                      | (h0', R np) => (if truthy np then invalidate f p None else ret tt) h0'
+                                      | (h0', E e) => (h0', E e) end
+                end) h1 = (h', R tt)).
+  { unfold h1. destruct (cache n); cbn in H; unfold modn, ret, bind in *; cbn in *; exact H. }
+  clear H.
+  destruct (live_parent _ _ _ I x n Rx G) as [(-> & Pn)|(p & np & Pp & Rp & Gp & HIn)].
+  - (* x is the root: the walk ends here *)
+    rewrite Pn in H'. inversion H'; subst h'.
+    eapply InvExc_cache_only; eauto.
+    intros y Ry _. destruct (Nat.eq_dec y r) as [->|N].
+    + destruct G1 as (n1 & Gn1 & Cn1). intros m c Gm Cm. congruence.
+    + eapply cvalid_cache_only_same; eauto.
+      apply (inv_cache _ _ _ I); auto. intros Ryr. apply N. eapply root_top; eauto.
+  - rewrite Pp in H'. unfold getn in H'.
+    destruct (cache_only_get _ _ _ _ C1 Gp) as (np1 & Gp1 & Ep1). rewrite Gp1 in H'.
+    assert (T : truthy np1 = true).
+    { rewrite Ep1. unfold truthy. destruct np as [cs0 ? ? ? ? ? ?]; cbn in *. destruct cs0; [contradiction|reflexivity]. }
+    rewrite T in H'.
+    pose proof (cache_only_shape _ _ C1) as S1.
+    eapply IH; [exact H'|eapply reach_shape; eauto|].
+    eapply InvExc_cache_only; [exact C1|exact I|].
+    intros y Ry NR. destruct (Nat.eq_dec y x) as [->|N].
+    + destruct G1 as (n1 & Gn1 & Cn1). intros m c Gm Cm. congruence.
+    + eapply cvalid_cache_only_same; eauto.
+      apply (inv_cache _ _ _ I); auto. intros Ryx. apply NR.
+      eapply reach_shape; eauto. eapply reach_up; eauto.
+Qed.
+
+(* ---- modifications that leave children / parent / parent_index alone ------------------------------------------------------ *)
+Definition lshape (n : node) := (children n, parent n, pidx n).
+Definition lsame (h h' : heap) := forall y, option_map lshape (get h y) = option_map lshape (get h' y).
+
+Lemma lsame_get h h' y n : lsame h h' -> get h y = Some n ->
+  exists n', get h' y = Some n' /\ children n' = children n /\ parent n' = parent n /\ pidx n' = pidx n.
+Proof.
+  intros S G. specialize (S y). rewrite G in S. destruct (get h' y) as [n'|]; cbn in S; [|discriminate].
+  unfold lshape in S. inversion S. eauto.
+Qed.
+Lemma lsame_sym h h' : lsame h h' -> lsame h' h.
+Proof. intros H y; symmetry; apply H. Qed.
+Lemma reach_lsame h h' a b : lsame h h' -> reach h a b -> reach h' a b.
+Proof.
+  intros S R; induction R; [constructor|].
+  destruct (lsame_get _ _ _ _ S H) as (n' & G' & C' & _).
+  eapply reach_step; eauto. now rewrite C'.
+Qed.
+
+Lemma InvExc_lsame h h' r P P' :
+  lsame h h' -> InvExc h r P -> (forall x, reach h r x -> ~ P' x -> cvalid h' x) -> InvExc h' r P'.
+Proof.
+  intros S [A B R D] V. pose proof (lsame_sym _ _ S) as S'.
+  split.
+  - destruct A as (nr & G & Pn). destruct (lsame_get _ _ _ _ S G) as (n' & G' & _ & Pp & _).
+    exists n'; split; congruence.
+  - intros p np i c Rp G Hi.
+    destruct (lsame_get _ _ _ _ S' G) as (n & Gn & Cn & _).
+    rewrite <- Cn in Hi.
+    destruct (B p n i c (reach_lsame _ _ _ _ S' Rp) Gn Hi) as (nc & Gc & Pc & Ic).
+    destruct (lsame_get _ _ _ _ S Gc) as (nc' & Gc' & _ & Pc' & Ic').
+    exists nc'; repeat split; congruence.
+  - destruct R as (rk & Hrk). exists rk. intros p np c Rp G HIn.
+    destruct (lsame_get _ _ _ _ S' G) as (n & Gn & Cn & _).
+    eapply Hrk; eauto using reach_lsame. congruence.
+  - intros x Rx NP. apply V; auto. eapply reach_lsame; eauto.
+Qed.
+
+Lemma lsame_upd h x f : (forall n, lshape (f n) = lshape n) -> lsame h (upd h x f).
+Proof.
+  intros F y. rewrite get_upd. destruct (Nat.eqb x y); auto. destruct (get h y); cbn; auto. now rewrite F.
+Qed.
+
+(* a cached value stays valid when the node keeps its cache and the recomputation is unaffected *)
+Lemma cvalid_keep h h' y :
+  cvalid h y ->
+  (forall n', get h' y = Some n' -> exists n, get h y = Some n /\ cache n = cache n') ->
+  (forall b, tbody h y b -> tbody h' y b) -> cvalid h' y.
+Proof.
+  intros V G T n' c G' C'. destruct (G n' G') as (n & Gn & Cn).
+  destruct (V n c Gn) as (b & Tb & Qb); [congruence|]. eauto.
+Qed.
+
+(* a change at node x does not affect the recomputed duration of a live y that does not reach x *)
+Lemma tbody_off_path h h' r P x y b :
+  InvExc h r P -> (forall z, z <> x -> get h' z = get h z) ->
+  ~ reach h y x -> tbody h y b -> tbody h' y b.
+Proof.
+  intros I Same NR T. eapply tbody_frame; eauto.
+  intros z Rz. apply Same. intros ->. auto.
+Qed.
+
+(* changing only the repetition definition of x does not affect x's own recomputed body duration *)
+Lemma tbody_self_rdf h r P x nx rd b :
+  InvExc h r P -> reach h r x -> get h x = Some nx -> tbody h x b -> tbody (upd h x (set_rdf rd)) x b.
+Proof.
+  intros I Rx G T.
+  assert (G' : get (upd h x (set_rdf rd)) x = Some (set_rdf rd nx)) by (now apply get_upd_same).
+  inversion T; subst.
+  - assert (n = nx) by congruence. subst n.
+    replace (leaf_dur nx) with (leaf_dur (set_rdf rd nx)) by (destruct nx; reflexivity).
+    apply (TB_leaf _ x (set_rdf rd nx)); auto.
+  - assert (n = nx) by congruence. subst n.
+    apply (TB_inner _ x (set_rdf rd nx)); auto.
+    eapply (proj2 (tbody_tsum_frame h _)); eauto.
+    intros c z HIn Rz. apply get_upd_other. intros <-.
+    (* x would be reachable from its own child *)
+    assert (Rc : reach h x c) by (eapply reach_child; eauto).
+    assert (x = c) by (eapply (acyclic _ _ _ I); eauto). subst c.
+    destruct (inv_rank _ _ _ I) as (rk & Hrk). specialize (Hrk x nx x Rx G HIn). lia.
+Qed.
+
+Lemma fueled_eq {A} (k : nat -> M A) h : fueled k h = k (S (S (length h))) h.
+Proof. reflexivity. Qed.
+
+(* Loop.waveform setter *)
+Lemma set_waveform_inv h r x w h' res :
+  Inv h r -> reach h r x -> set_waveform x w h = (h', res) -> ok_result res -> Inv h' r.
+Proof.
+  intros I Rx H OK. unfold set_waveform, bind, modn, invalidate_all in H. rewrite fueled_eq in H.
+  set (h1 := upd h x (set_wform w)) in *.
+  assert (LS : lsame h h1) by (apply lsame_upd; intros []; reflexivity).
+  destruct (invalidate _ x None h1) as (h2, [[]|e]) eqn:W; inversion H; subst.
+  2:{ (* the walk only fails by fuel / dangling pointers, excluded by ok_result unless impossible *)
+      destruct OK as (N1 & N2).
+      exfalso. clear H.
+      (* any error of the walk is ExFuel or ExDangling *)
+      assert (Err : forall fuel y h0 h0' e0, invalidate fuel y None h0 = (h0', E e0) -> e0 = ExFuel \/ e0 = ExDangling).
+      { induction fuel as [|f IHf]; intros y h0 h0' e0 HH; cbn in HH.
+        - inversion HH; auto.
+        - unfold bind, getn in HH. destruct (get h0 y) as [n0|]; [|inversion HH; auto].
+          destruct (cache n0); cbn in HH; unfold modn, bind, ret in HH; cbn in HH;
+            (destruct (parent n0) as [p0|]; [|discriminate]);
+            unfold getn in HH;
+            match type of HH with context [get ?hh p0] => destruct (get hh p0) as [np0|] end;
+            try (inversion HH; auto; fail);
+            (destruct (truthy np0); [eapply IHf; eauto|discriminate]). }
+      destruct (Err _ _ _ _ _ W); congruence. }
+  eapply invalidate_none_spec; [exact W|eapply reach_lsame; eauto|].
+  eapply InvExc_lsame; [exact LS|exact I|].
+  intros y Ry NR.
+  assert (Nyx : y <> x) by (intros ->; apply NR; constructor).
+  eapply cvalid_keep.
+  - apply (inv_cache _ _ _ I); auto.
+  - intros n' G'. unfold h1 in G'. rewrite get_upd_other in G' by auto. eauto.
+  - intros b Tb. apply (tbody_off_path h h1 r _ x y b I); [| |exact Tb].
+    + intros z Nz. unfold h1. apply get_upd_other; auto.
+    + intros Ryx. apply NR. eapply reach_lsame; eauto.
+Qed.
+
+Lemma invalidate_none_err : forall fuel y h0 h0' e0,
+  invalidate fuel y None h0 = (h0', E e0) -> e0 = ExFuel \/ e0 = ExDangling.
+Proof.
+  induction fuel as [|f IHf]; intros y h0 h0' e0 HH; cbn in HH.
+  - inversion HH; auto.
+  - unfold bind, getn in HH. destruct (get h0 y) as [n0|]; [|inversion HH; auto].
+    destruct (cache n0); cbn in HH; unfold modn, bind, ret in HH; cbn in HH;
+      (destruct (parent n0) as [p0|]; [|discriminate]);
+      unfold getn in HH;
+      match type of HH with context [get ?hh p0] => destruct (get hh p0) as [np0|] end;
+      try (inversion HH; auto; fail);
+      (destruct (truthy np0); [eapply IHf; eauto|discriminate]).
+Qed.
+
+(* Loop.repetition_definition / repetition_count setters *)
+Lemma set_repetition_definition_inv h r x rd h' res :
+  Inv h r -> reach h r x -> set_repetition_definition x rd h = (h', res) -> ok_result res -> Inv h' r.
+Proof.
+  intros I Rx H OK. unfold set_repetition_definition, bind, modn, invalidate_parent in H.
+  set (h1 := upd h x (set_rdf rd)) in *.
+  assert (LS : lsame h h1) by (apply lsame_upd; intros []; reflexivity).
+  destruct (live_get _ _ _ I x Rx) as (nx & Gx).
+  assert (Gx1 : get h1 x = Some (set_rdf rd nx)) by (now apply get_upd_same).
+  unfold bind, getn in H. rewrite Gx1 in H.
+  replace (parent (set_rdf rd nx)) with (parent nx) in H by (destruct nx; reflexivity).
+  (* validity of caches of all live nodes that are x itself or do not reach x *)
+  assert (KEEP : forall y, reach h r y -> (y = x \/ ~ reach h y x) -> cvalid h1 y).
+  { intros y Ry [->|NR].
+    - eapply cvalid_keep.
+      + apply (inv_cache _ _ _ I); auto.
+      + intros n' G'. rewrite Gx1 in G'. inversion G'; subst. exists nx; split; auto; destruct nx; reflexivity.
+      + intros b Tb. eapply tbody_self_rdf; eauto.
+    - assert (Nyx : y <> x) by (intros ->; apply NR; constructor).
+      eapply cvalid_keep.
+      + apply (inv_cache _ _ _ I); auto.
+      + intros n' G'. unfold h1 in G'. rewrite get_upd_other in G' by auto. eauto.
+      + intros b Tb. apply (tbody_off_path h h1 r _ x y b I); [|exact NR|exact Tb].
+        intros z Nz. unfold h1. apply get_upd_other; auto. }
+  destruct (live_parent _ _ _ I x nx Rx Gx) as [(-> & Pn)|(p & np & Pp & Rp & Gp & HIn)].
+  - rewrite Pn in H. inversion H; subst.
+    eapply InvExc_lsame; [exact LS|exact I|].
+    intros y Ry _. apply KEEP; auto.
+    destruct (Nat.eq_dec y r); [now left|right]. intros Ryr. apply n. eapply root_top; eauto.
+  - rewrite Pp in H.
+    destruct (lsame_get _ _ _ _ LS Gp) as (np1 & Gp1 & Cp1 & _). rewrite Gp1 in H.
+    assert (T : truthy np1 = true).
+    { unfold truthy. rewrite Cp1. destruct (children np); [contradiction|reflexivity]. }
+    rewrite T in H. unfold invalidate_all in H. rewrite fueled_eq in H.
+    destruct (invalidate _ p None h1) as (h2, [[]|e]) eqn:W; inversion H; subst.
+    2:{ destruct OK as (N1 & N2). destruct (invalidate_none_err _ _ _ _ _ W); congruence. }
+    eapply invalidate_none_spec; [exact W|eapply reach_lsame; eauto|].
+    eapply InvExc_lsame; [exact LS|exact I|].
+    intros y Ry NR. apply KEEP; auto.
+    destruct (Nat.eq_dec y x); [now left|right]. intros Ryx. apply NR.
+    eapply reach_lsame; eauto. eapply reach_up; eauto.
+Qed.
+
+(* ---- the memoising queries (Loop.body_duration / Loop.duration) ------------------------------------------------------------- *)
+Definition child_dur (f : nat) (c : id) : M Q :=
+  b <- body_duration f c ;; nc <- getn c ;; ret (Qred (b * inject_Z (rep_count (rdf nc)))).
+
+Lemma body_duration_S f x :
+  body_duration (S f) x =
+  (n <- getn x ;;
+   match cache n with
+   | Some q => ret q
+   | None =>
+       match children n with
+       | [] => let q := match wform n with Some w => Qred (wf_dur w) | None => 0%Q end in
+               modn x (set_cache (Some q)) ;;; ret q
+       | cs => s <- msum (child_dur f) cs 0%Q ;; modn x (set_cache (Some s)) ;;; ret s
+       end
+   end).
+Proof. reflexivity. Qed.
+
+Definition model_err (e : exn) : Prop := e = ExFuel \/ e = ExDangling.
+Lemma msum_cons g c r acc : msum g (c :: r) acc = (d <- g c ;; msum g r (Qred (acc + d))).
+Proof. reflexivity. Qed.
+Lemma msum_nil g acc : msum g [] acc = ret acc.
+Proof. reflexivity. Qed.
+Local Opaque Qred.
+
+Lemma cvalid_shape_same h h' y :
+  same_shape h h' -> cvalid h y ->
+  (forall n', get h' y = Some n' -> exists n, get h y = Some n /\ cache n = cache n') -> cvalid h' y.
+Proof.
+  intros S V G. eapply cvalid_keep; eauto. intros b. now apply tbody_shape.
+Qed.
+
+Definition memo_post (h h' : heap) : Prop :=
+  cache_only h h' /\ (forall y, cvalid h y -> cvalid h' y).
+
+Lemma memo_post_refl h : memo_post h h.
+Proof. split; [apply cache_only_refl|auto]. Qed.
+Lemma memo_post_trans h1 h2 h3 : memo_post h1 h2 -> memo_post h2 h3 -> memo_post h1 h3.
+Proof. intros [A B] [C D]; split; [eapply cache_only_trans; eauto|auto]. Qed.
+
+(* writing a correct value into an empty cache *)
+Lemma memo_post_write h x n q b :
+  get h x = Some n -> tbody h x b -> (q == b)%Q -> memo_post h (upd h x (set_cache (Some q))).
+Proof.
+  intros G T E. split; [apply cache_only_upd|].
+  pose proof (cache_only_shape _ _ (cache_only_upd h x (Some q))) as S.
+  intros y V n' c G' C'. rewrite get_upd in G'.
+  destruct (Nat.eqb_spec x y) as [->|N].
+  - rewrite G in G'. cbn in G'. inversion G'; subst n'. destruct n; cbn in C'. inversion C'; subst c.
+    exists b; split; auto. eapply tbody_shape; eauto.
+  - destruct (V n' c G' C') as (b' & T' & E'). exists b'; split; auto. eapply tbody_shape; eauto.
+Qed.
+
+Lemma body_duration_spec : forall fuel x h h' res,
+  body_duration fuel x h = (h', res) ->
+  (forall y, reach h x y -> cvalid h y) ->
+  memo_post h h' /\
+  match res with R q => exists b, tbody h x b /\ (q == b)%Q | E e => model_err e end.
+Proof.
+  induction fuel as [|f IH]; intros x h h' res H V.
+  - cbn in H. inversion H; subst. split; [apply memo_post_refl|left; reflexivity].
+  - rewrite body_duration_S in H. unfold bind at 1 in H. unfold getn in H.
+    destruct (get h x) as [n|] eqn:G.
+    2:{ inversion H; subst. split; [apply memo_post_refl|right; reflexivity]. }
+    destruct (cache n) as [q|] eqn:Cn.
+    { inversion H; subst. split; [apply memo_post_refl|].
+      destruct (V x (reach_refl _ _) n q G Cn) as (b & T & E). eauto. }
+    destruct (children n) as [|c0 cs0] eqn:Ch.
+    { (* leaf *)
+      cbn in H. unfold bind, modn, ret in H. inversion H; subst.
+      assert (T : tbody h x (leaf_dur n)) by (apply (TB_leaf h x n); auto).
+      split; [eapply memo_post_write; eauto; reflexivity|].
+      exists (leaf_dur n); split; auto. reflexivity. }
+    (* inner node: sum over the children *)
+    assert (MS : forall cs h0 acc h0' res0,
+               msum (child_dur f) cs acc h0 = (h0', res0) ->
+               (forall c y, In c cs -> reach h0 c y -> cvalid h0 y) ->
+               memo_post h0 h0' /\
+               match res0 with
+               | R q => exists s, tsum h0 cs s /\ (q == acc + s)%Q
+               | E e => model_err e
+               end).
+    { induction cs as [|c cs IHcs]; intros h0 acc h0' res0 HM VV.
+      - rewrite msum_nil in HM. inversion HM; subst. split; [apply memo_post_refl|].
+        exists 0%Q; split; [constructor|ring].
+      - rewrite msum_cons in HM. unfold bind at 1 in HM. unfold child_dur at 1 in HM. unfold bind at 1 in HM.
+        destruct (body_duration f c h0) as (h1, r1) eqn:BD.
+        destruct (IH _ _ _ _ BD) as (MP1 & R1); [intros y Ry; eapply VV; eauto; now left|].
+        destruct r1 as [b1|e1].
+        2:{ inversion HM; subst. split; auto. }
+        destruct R1 as (b & Tb & Eb).
+        unfold bind at 1 in HM. unfold getn in HM. destruct (get h1 c) as [nc1|] eqn:Gc1.
+        2:{ inversion HM; subst. split; [auto|right; reflexivity]. }
+        unfold ret at 1 in HM.
+        pose proof (cache_only_shape _ _ (proj1 MP1)) as S1.
+        destruct (IHcs _ _ _ _ HM) as (MP2 & R2).
+        { intros c' y HIn Ry. apply (proj2 MP1). eapply VV; [right; eauto|].
+          eapply reach_shape; [apply same_shape_sym; eauto|auto]. }
+        split; [eapply memo_post_trans; eauto|].
+        destruct res0 as [q|e]; auto.
+        destruct R2 as (s & Ts & Es).
+        destruct (cache_only_get' _ _ _ _ (proj1 MP1) Gc1) as (nc & Gc & Enc).
+        exists (b * rep_of nc + s)%Q. split.
+        + constructor; auto. eapply (proj2 (tbody_tsum_shape _ _ (same_shape_sym _ _ S1))); eauto.
+        + rewrite Es. rewrite !Qred_correct. rewrite Eb.
+          unfold rep_of. replace (rdf nc1) with (rdf nc) by (rewrite Enc; destruct nc; reflexivity). ring. }
+    cbn iota in H. unfold bind at 1 in H.
+    destruct (msum (child_dur f) (c0 :: cs0) 0%Q h) as (h1, r1) eqn:HM.
+    destruct (MS _ _ _ _ _ HM) as (MP1 & R1).
+    { intros c y HIn Ry. apply V. eapply reach_trans; [|exact Ry]. eapply reach_child; eauto. now rewrite Ch. }
+    destruct r1 as [s|e].
+    2:{ inversion H; subst. split; auto. }
+    destruct R1 as (s' & Ts & Es).
+    unfold bind, modn, ret in H. inversion H; subst.
+    assert (T : tbody h x s') by (apply (TB_inner h x n); auto; congruence).
+    pose proof (cache_only_shape _ _ (proj1 MP1)) as S1.
+    destruct (cache_only_get _ _ _ _ (proj1 MP1) G) as (n1 & G1 & _).
+    split.
+    + eapply memo_post_trans; [exact MP1|].
+      apply (memo_post_write h1 x n1 s s'); [exact G1|eapply tbody_shape; eauto|rewrite Es; ring].
+    + exists s'; split; auto. rewrite Es; ring.
+Qed.
+
+(* ---- queries preserve the invariant ---------------------------------------------------------------------------------------------- *)
+Lemma memo_post_inv h h' r : memo_post h h' -> Inv h r -> Inv h' r.
+Proof.
+  intros [C V] I. eapply InvExc_cache_only; [exact C|exact I|].
+  intros x Rx _. apply V. apply (inv_cache _ _ _ I); auto.
+Qed.
+
+Lemma reach_live_cvalid h r x : Inv h r -> reach h r x -> forall y, reach h x y -> cvalid h y.
+Proof. intros I Rx y Ry. apply (inv_cache _ _ _ I); auto. eapply reach_trans; eauto. Qed.
+
+Lemma body_duration_inv fuel h r x h' res :
+  Inv h r -> reach h r x -> body_duration fuel x h = (h', res) -> Inv h' r.
+Proof.
+  intros I Rx H. destruct (body_duration_spec _ _ _ _ _ H) as (MP & _); [eapply reach_live_cvalid; eauto|].
+  eapply memo_post_inv; eauto.
+Qed.
+
+Lemma duration_inv fuel h r x h' res :
+  Inv h r -> reach h r x -> duration fuel x h = (h', res) -> Inv h' r.
+Proof.
+  intros I Rx H. unfold duration, bind in H.
+  destruct (body_duration fuel x h) as (h1, r1) eqn:BD.
+  pose proof (body_duration_inv _ _ _ _ _ _ I Rx BD) as I1.
+  destruct r1; [|inversion H; subst; auto].
+  unfold getn in H. destruct (get h1 x); inversion H; subst; auto.
+Qed.
+
+(* ---- histories: the operations proved so far ----------------------------------------------------------------------------------------- *)
+Definition sInv (s : state) : Prop := Inv (st_heap s) (st_root s).
+Definition out_ok (o : outcome) : Prop :=
+  match o with Raised ExFuel | Raised ExDangling => False | _ => True end.
+
+Lemma resolve_reach h : forall p x y, resolve h x p = Some y -> reach h x y.
+Proof.
+  induction p as [|i p IH]; intros x y H; cbn in H.
+  - inversion H; constructor.
+  - destruct (get h x) as [n|] eqn:G; [|discriminate].
+    destruct (nth_error (children n) i) as [c|] eqn:N; [|discriminate].
+    eapply reach_trans; [eapply reach_child; eauto; eapply nth_error_In; eauto|]. now apply IH.
+Qed.
+
+(* operations whose preservation of the invariant is proved for all heaps and arguments *)
+Definition proved_op (o : op) : bool :=
+  match o with
+  | ONop | OSetWf _ _ | OSetRepCount _ _ | OSetRepDef _ _ | OQueryDur _ | OQueryBody _ | OEq _ _ => true
+  | _ => false
+  end.
+
+Lemma run_at_inv s p k s' out :
+  sInv s -> run_at s p k = (s', out) -> out_ok out ->
+  (forall x h' res, reach (st_heap s) (st_root s) x -> k x (st_heap s) = (h', res) -> ok_result res -> Inv h' (st_root s)) ->
+  sInv s'.
+Proof.
+  intros I H OK K. unfold run_at in H.
+  destruct (resolve (st_heap s) (st_root s) p) as [x|] eqn:Rs; [|inversion H; subst; auto].
+  apply resolve_reach in Rs.
+  destruct (k x (st_heap s)) as (h', [u|e]) eqn:Kx; inversion H; subst; unfold sInv; cbn.
+  - eapply K; eauto; exact Logic.I.
+  - eapply K; eauto; cbn; cbn in OK; destruct e; try contradiction; split; discriminate.
+Qed.
+
+Lemma step_partial s o s' out :
+  sInv s -> proved_op o = true -> step s o = (s', out) -> out_ok out -> sInv s'.
+Proof.
+  intros I PO H OK. destruct o; try discriminate; cbn in H.
+  - inversion H; subst; auto.
+  - eapply run_at_inv; eauto. intros x h' res Rx Hk Okr. cbv beta in Hk. eapply set_waveform_inv; [exact I| | |]; eauto.
+  - eapply run_at_inv; eauto. intros x h' res Rx Hk Okr. cbv beta in Hk. eapply set_repetition_definition_inv; [exact I| | |]; eauto.
+  - eapply run_at_inv; eauto. intros x h' res Rx Hk Okr. cbv beta in Hk. eapply set_repetition_definition_inv; [exact I| | |]; eauto.
+  - eapply run_at_inv; eauto. intros x h' res Rx Hk Okr. cbv beta in Hk. unfold bind in Hk. rewrite fueled_eq in Hk.
+    destruct (duration _ x (st_heap s)) as (h1, r1) eqn:D.
+    pose proof (duration_inv _ _ _ _ _ _ I Rx D). destruct r1; inversion Hk; subst; auto.
+  - eapply run_at_inv; eauto. intros x h' res Rx Hk Okr. cbv beta in Hk. unfold bind in Hk. rewrite fueled_eq in Hk.
+    destruct (body_duration _ x (st_heap s)) as (h1, r1) eqn:D.
+    pose proof (body_duration_inv _ _ _ _ _ _ I Rx D). destruct r1; inversion Hk; subst; auto.
+  - inversion H; subst; auto.
+Qed.
+
+(* every step of the history ends without a model artefact (fuel / dangling id) *)
+Fixpoint run_ok (s : state) (ops : list op) : Prop :=
+  match ops with
+  | [] => True
+  | o :: r => out_ok (snd (step s o)) /\ run_ok (fst (step s o)) r
+  end.
+
+Lemma history_partial : forall ops s,
+  sInv s -> forallb proved_op ops = true -> run_ok s ops -> sInv (run s ops).
+Proof.
+  induction ops as [|o ops IH]; intros s I P OK; cbn in *; auto.
+  apply andb_prop in P as (P1 & P2). destruct OK as (O1 & O2).
+  destruct (step s o) as (s', out) eqn:St. cbn in *.
+  apply IH; auto. eapply step_partial; eauto.
+Qed.
+
+(* ---- non-vacuity: a concrete state that satisfies the invariant ------------------------------------------------------------------------ *)
+Definition leaf_state (w : wf) : state := mkState [mkNode [] None None None (RInt 2) (Some w) None] 0%nat 0.
+
+Lemma leaf_state_inv w : sInv (leaf_state w).
+Proof.
+  unfold sInv, leaf_state; cbn.
+  assert (RR : forall y, reach [mkNode [] None None None (RInt 2) (Some w) None] 0%nat y -> y = 0%nat).
+  { intros y R. induction R; auto. subst p. cbn in H. inversion H; subst. cbn in H0. contradiction. }
+  split.
+  - eexists; split; reflexivity.
+  - intros p np i c R G N. apply RR in R; subst. cbn in G. inversion G; subst. cbn in N. destruct i; discriminate.
+  - exists (fun _ => 0%nat). intros p np c R G HIn. apply RR in R; subst. cbn in G. inversion G; subst. contradiction.
+  - intros x R _ n c G C. apply RR in R; subst. cbn in G. inversion G; subst. discriminate.
+Qed.
